@@ -111,6 +111,9 @@ var c19Inputs = []struct {
 	{"numbers", `{"s": 1e21, "a": -0.0, "n": 1e-7, "t": 9007199254740993, "arr": [1.5e300, 5e-324]}`, true},
 	{"invalid utf-8 inside a string", "{\"a\": \"x\xffy\"}", true},
 	{"json-like text inside strings", `{"a": "epoch 3, loss: NaN, lr 0.1", "s": "[-Infinity, 0)", "max:Infinity": 1, "arr": ["x, NaN", ":NaN", "[NaN]", ",Infinity", "// not a comment", "/* nor this */", "{'single': 1,}", "0x10", "01", "+1", ".5", "1.", "\\u0000"], "t": ": null, \"k\": [true]", "n": 1, "objs": [{"n": 1, "s": "NaN"}, {"n": 2, "s": "-Infinity"}]}`, true},
+	{"string document holding a JSON array", `"[]"`, true},
+	{"string document holding a JSON object", `"{\"foo\":{\"bar\":1},\"a\":[1,2]}"`, true},
+	{"string document holding a JSON number", `"123"`, true},
 	{"empty input", ``, false},
 	{"trailing form feed", "{\"a\": 1}\f", false},
 	{"leading vertical tab", "\v{\"a\": 1}", false},
@@ -213,7 +216,7 @@ func c19(r *mon.Run) {
 	fixedGood := []string{"a.b[2].c", "arr", "sort(arr)", "objs[*].n", "sort_by(objs, &n)[0].s", "@", "*", "keys(@)", "length(@)", "[0]", "a.b[?@ > `1`]", "to_string(@)", "s", "n", "t", "z", "{x: n, y: s}", "[n, s, `null`]",
 		"'<raw>&'", "`{\"k\": [1, 2]}`", "a.b[::-1]", "not_null(z, s)", "type(n)", "max_by(objs, &n)", "join(', ', objs[*].s)", "a || b", "!z", "n < `0`", "\"é\"", "a.\"b\"[0]", "sum(arr)", "avg(arr)", "arr[1:]", "merge(@, {x: `1`})", "keys(@)[0]", "sort(keys(@))", "'50%'", "'%d'", "{p: '%s', q: s}",
 		"to_string(o)", "to_string(arr)", "to_string(@)", "'\\u003e'", "'\\u0026amp; \\u003c'", "keys(o)", "to_string(to_string(@))", "join('', arr)", "to_string(objs[*].s)", "o", "t", "[a, s, t]", "to_string(t)", "`\"\\\\u003c\"`", "to_string(`\"<&>\"`)", "to_string(['<', '>', '&'])",
-		"\"max:Infinity\"", "contains(a, 'NaN')", "arr[?contains(@, 'NaN')]", "objs[?s == 'NaN'].n", "length(s)", "keys(@)", "arr[0]", "ends_with(s, ', 0)')"}
+		"type(@)", "length(@)", "reverse(@)", "starts_with(@, '[')", "foo.bar", "sort(@)", "join(',', @)", "[0]", "@ == '[]'", "\"max:Infinity\"", "contains(a, 'NaN')", "arr[?contains(@, 'NaN')]", "objs[?s == 'NaN'].n", "length(s)", "keys(@)", "arr[0]", "ends_with(s, ', 0)')"}
 	evalErr := []string{"abs('x')", "abs()", "nosuchfn(@)", "arr[::0]", "sort_by(objs, &@)", "length(n)", "[abs(s), n]", "objs[*].abs(s)", "merge(@, `1`)", "to_string(&a)", "sum(a)", "max(`[1, \"a\"]`)"}
 	n := tierPick(r, 4000, 40000)
 	w := mon.Workload{Name: "invocations", N: n, Batch: 50,
@@ -245,7 +248,7 @@ func c19(r *mon.Run) {
 			}
 			ii := rng.Intn(len(c19Inputs))
 			if i%3 == 0 {
-				ii = rng.Intn(19) // favour valid input
+				ii = rng.Intn(22) // favour valid input
 			}
 			in := c19Inputs[ii]
 			channel := []string{"stdin", "file", "missing file"}[[]int{0, 0, 1, 1, 1, 2}[rng.Intn(6)]]
